@@ -10,7 +10,8 @@
      10 credits exceed the pulled amount   11 a negative credit   12 negative pulled amount
      20 warm pull differs from cold pull   21 pull above the remaining supply / pool cap
      30 cumulative invariant broken (balance < 0 or balance + withdrawn <> matured)
-     31 a withdrawal paid more than the matured balance                                  *)
+     31 a withdrawal paid more than the matured balance
+     32 a negative WITHDRAW_REWARD amount was not refused                                  *)
 From Coq Require Import ZArith List Bool.
 From OL Require Import theories.Rewards gen.Facts_Consts.
 Import ListNotations.
@@ -29,6 +30,21 @@ Definition cres_z (r : cres) : Z := match r with COk a => a | CErr => 0 end.
 Definition cres_ok (r : cres) : bool := match r with COk _ => true | CErr => false end.
 
 (* ---------------- whole-app blocks ---------------- *)
+(* one WITHDRAW_REWARD transaction on the real app: records right before it, verdicts, records after *)
+Record wtx := mkWtx {
+  w_value : Z; w_bal : Z; w_wd : Z; w_pool : Z;
+  w_check_ok : bool; w_deliver_ok : bool; w_bal2 : Z; w_wd2 : Z
+}.
+
+(* 8 = the model's verdict/records differ from DeliverTx;
+   monitor 32 = a negative amount was accepted by CheckTx or DeliverTx, or changed the records *)
+Definition check_wtx (w : wtx) : list Z :=
+  let m := withdraw_tx (w_value w) (w_bal w) (w_wd w) (w_pool w) in
+  (if Bool.eqb (fst (fst m)) (w_deliver_ok w) && (snd (fst m) =? w_bal2 w) && (snd m =? w_wd2 w) then [] else [8])
+  ++ (if (w_value w <? 0) &&
+         negb (negb (w_check_ok w) && negb (w_deliver_ok w) && (w_bal2 w =? w_bal w) && (w_wd2 w =? w_wd w))
+      then [32] else []).
+
 Record blk := mkBlk {
   b_h : Z; b_restart : bool;
   b_t1 : Z; b_tb : Z; b_te : Z;          (* header times (ns): block 1, cycle begin, cycle end *)
@@ -42,7 +58,8 @@ Record blk := mkBlk {
   ob_consumed : Z;                       (* rwcum_tdist delta *)
   ob_vals : list Z;                      (* per vote: delta of the address's current chunk *)
   ob_delegs : list Z;                    (* per delegator: delta of delegRwz_balance *)
-  ob_matured : list Z                    (* per reward address: delta of rwcum_balance *)
+  ob_matured : list Z;                   (* per reward address: delta of rwcum_balance *)
+  b_wtxs : list wtx                      (* WITHDRAW_REWARD transactions delivered in the block *)
 }.
 
 Record chain := mkChain { ch_o : opts; ch_blocks : list blk }.
@@ -128,7 +145,7 @@ Fixpoint check_blocks (o : opts) (c : cache) (i : Z) (bs : list blk) : list Z :=
   | [] => []
   | b :: r =>
       let res := check_blk o c b in
-      flat_map (fun code => [i; code]) (fst res ++ monitor_blk o b) ++ check_blocks o (snd res) (i + 1) r
+      flat_map (fun code => [i; code]) (fst res ++ monitor_blk o b ++ flat_map check_wtx (b_wtxs b)) ++ check_blocks o (snd res) (i + 1) r
   end.
 
 (* (chain index, block index, code) triples, flattened *)
